@@ -13,4 +13,16 @@ PROPS = {
         'assumptions': ['reads of ABWCR/ASTCR/WCRH/WCRL/DRCRA by the cost function never fail (they are plain io_registrs1 bytes; '
                         'checked by the harness, which programs them through Bus::write)'],
     },
+    'C09': {
+        'lean': ['H8.Props.C09'],
+        'gen': ['consts', 'busmap'],
+        'runs': [{'mode': 'bus09', 'shards': 16}],
+        'rule': ('(a) address-space sweep through the real Bus::read/Bus::write (read, write a tag, read back) classified per '
+                 'address and compared with the property\'s ranges: thorough = all 2^24 addresses plus bands near 2^31/2^32, '
+                 'quick = every region boundary +-0x400 and 2048 random 64-byte windows; (b) seeded random histories of 1-64 '
+                 'interleaved byte writes/reads over region edges, holes, >=2^24 and random addresses, with per-op results and '
+                 'the complete final contents of all five stores compared against an abstract address->byte map. '
+                 'distinct non-trivial = distinct sweeps, and distinct histories containing at least one successful write.'),
+        'assumptions': ['16/32-bit accesses are exercised through the CPU step harness (C01/C08), not here'],
+    },
 }
